@@ -113,6 +113,12 @@ fn embed(ser: &Ser, beacon: &str, c: &RtCase, other: &str) -> String {
         9 => format!("{} {} {}", other, b, other),    // three beacons
         10 => format!("{}{}", end, b),                // stray end marker before
         11 => format!("{}{}", b, begin),              // stray begin marker after
+        // a partial begin marker of every length directly before the beacon, and after a separator
+        12 => format!("{}{}", &begin[..1], b),
+        13 => format!("{}{}", &begin[..2], b),
+        14 => format!("{}{}", &begin[..4], b),
+        15 => format!("{} {}", &begin[..4], b),
+        16 => format!("{}{}{}", &begin[..4], &begin[..4], b),
         _ => b,
     }
 }
@@ -273,6 +279,29 @@ fn passwords(n: usize) -> Vec<String> {
     v
 }
 
+/// Passwords whose begin marker has a border (a proper prefix that is also its suffix): a partial begin marker in front of the
+/// beacon then forms an earlier, overlapping occurrence of the begin marker.
+fn bordered_passwords(limit: usize, max: usize) -> Vec<(String, usize)> {
+    let mut out = vec![];
+    set_hour(2000, 0);
+    for i in 0..limit {
+        let pw = format!("pw{}", i);
+        let ser = Ser::new(pw.as_bytes());
+        let g = ser.encode(&[]);
+        let begin = &g[..5];
+        for k in (1..5).rev() {
+            if begin[..k] == begin[5 - k..] {
+                out.push((pw.clone(), k));
+                break;
+            }
+        }
+        if out.len() >= max {
+            break;
+        }
+    }
+    out
+}
+
 /// Passwords whose begin marker's suffix equals the end marker's prefix (k >= 1 characters).
 fn overlapping_passwords(limit: usize, max: usize) -> Vec<(String, usize)> {
     let mut out = vec![];
@@ -346,6 +375,18 @@ pub fn run(ctx: &Ctx) {
             }
         }
     }
+    // partial begin markers in front of the beacon, for an ordinary password and for passwords whose begin marker overlaps itself
+    let bordered = bordered_passwords(2000, ctx.tier.pick(6, 24));
+    let mut pws: Vec<String> = vec!["embed".to_string()];
+    pws.extend(bordered.iter().map(|b| b.0.clone()));
+    for pw in &pws {
+        for e in 12..=16u32 {
+            for (n4, n6) in [(1usize, 0usize), (0, 0)] {
+                emb.push(RtCase { password: pw.clone(), n4, n6, v6_first: false, hour: 2000, embedding: e, sep_pos: -1 });
+            }
+        }
+    }
+    ctx.assume(&format!("passwords whose begin marker has a border (prefix = suffix) found among pw0..pw1999: {:?}", bordered));
     sweep_list(ctx, "embeddings", &emb, SweepOpts::default(), run_roundtrip);
     // (5) age grid
     let mut ages = vec![];
